@@ -584,7 +584,7 @@ fn justify_race(p: &Program, h: &[HEv], may: &MachineCfg) -> Result<bool, String
             for th in &p.threads {
                 for o in th {
                     match o {
-                        Op::Store { v, .. } | Op::Swap { v, .. } | Op::AWithMut { v, .. } => cands.push(*v),
+                        Op::Store { v, .. } | Op::Swap { v, .. } | Op::AWithMut { v, .. } | Op::CWrite { v, .. } | Op::Send { v, .. } | Op::SendBomb { v, .. } => cands.push(*v),
                         Op::Cas { n, .. } => cands.push(*n),
                         _ => {}
                     }
@@ -594,16 +594,27 @@ fn justify_race(p: &Program, h: &[HEv], may: &MachineCfg) -> Result<bool, String
             cands.sort();
             cands.dedup();
             let mut accepted_any = false;
+            let mut first_err: Option<String> = None;
             for v in cands {
                 let mut h2 = hh.clone();
                 h2.push(HEv { tid: t, pc, kind: HK::Ret, res: Some(v) });
                 match replay_may_any(p, &h2, may, true, |a| a.race) {
                     Ok(true) => return Ok(true),
                     Ok(false) => accepted_any = true,
-                    Err(_) => {}
+                    Err(e) => {
+                        if first_err.is_none() {
+                            first_err = Some(e);
+                        }
+                    }
                 }
             }
-            let _ = accepted_any;
+            if !accepted_any {
+                // the completed part of the history is not accepted at all (e.g. a known
+                // deviation in it): that is an invalid execution, not an unjustified report
+                if let Some(e) = first_err {
+                    return Err(e);
+                }
+            }
             return Ok(false);
         }
     }
